@@ -199,7 +199,29 @@ func (idx *WorkspaceIndex) removeFileIndex(path string, fi *FileIndex) {
 	for payee := range fi.PayeeTemplates {
 		delete(idx.payeeTemplates, payee)
 	}
+	idx.restorePayeeTemplates(fi.PayeeTemplates)
 	idx.refreshDerived()
+}
+
+// restorePayeeTemplates re-adds the template of every removed payee that one
+// of the remaining files still defines.
+func (idx *WorkspaceIndex) restorePayeeTemplates(removed map[string][]analyzer.PostingTemplate) {
+	if len(removed) == 0 {
+		return
+	}
+	paths := make([]string, 0, len(idx.fileIndexes))
+	for path := range idx.fileIndexes {
+		paths = append(paths, path)
+	}
+	sort.Strings(paths)
+	for payee := range removed {
+		for _, path := range paths {
+			if postings, ok := idx.fileIndexes[path].PayeeTemplates[payee]; ok {
+				idx.payeeTemplates[payee] = postings
+				break
+			}
+		}
+	}
 }
 
 func (idx *WorkspaceIndex) decrementBy(counts map[string]int, key string, amount int) {
